@@ -6,8 +6,8 @@ EXTENDS SignalsOps, Json, IOUtils
 
 Traces == JsonDeserialize(IOEnv.TRACE_FILE)
 
-VARIABLES tid, l, conn, alive, stack, ok, why
-vars == <<tid, l, conn, alive, stack, ok, why>>
+VARIABLES tid, l, conn, alive, stack, tag, ok, why
+vars == <<tid, l, conn, alive, stack, tag, ok, why>>
 
 S == 1..2
 N == 1..2
@@ -18,15 +18,44 @@ Init == /\ tid \in 1..Len(Traces)
         /\ conn = [p \in P |-> <<>>]
         /\ alive = {w \in 1..Traces[tid].nweak : TRUE}
         /\ stack = <<>>
+        /\ tag = <<>>          \* tag[k] = the user argument given when connection k was made (several connections may share it)
         /\ ok = TRUE
         /\ why = "-"
 
 AllEntries == UNION {{conn[p][j] : j \in 1..Len(conn[p])} : p \in P}
 KilledKeys(w) == {e.k : e \in {e \in AllEntries : e.w = w}}
-Lookup(f, k) ==   \* the entry with key k as this frame can know it
-  LET cands == {f.snap[j] : j \in 1..Len(f.snap)} \cup AllEntries
-  IN IF \E e \in cands : e.k = k THEN CHOOSE e \in cands : e.k = k ELSE Entry(0, 0, 0)
-ExpectedArgs(e, emitid) == (IF e.w = 0 THEN <<>> ELSE <<1000 + e.w>>) \o <<e.k>> \o <<2000 + emitid>>
+\* A call is identified by the user argument u it received.  Connections made with identical arguments (same callback,
+\* weak and user arguments) share u and cannot be told apart by their calls, so a frame records the TAGS it called and the
+\* contract of a finished emit is evaluated per tag (FirstBrokenT): any attribution of calls to connections that satisfies
+\* the property is accepted, none is invented.
+TagOf(k) == IF k \in 1..Len(tag) THEN tag[k] ELSE 0
+Lookup(f, u) ==     \* some connection carrying u that this emit may know (all of them have the same callback and weak argument)
+  LET p == <<f.s, f.n>>
+      later == SelectSeq(conn[p], LAMBDA e : e.k \notin Keys(f.snap))
+      cand == SelectSeq(f.snap \o later, LAMBDA e : TagOf(e.k) = u)
+  IN IF cand # <<>> THEN cand[1] ELSE Entry(0, 0, 0)
+StayIdx(f) == {j \in 1..Len(f.snap) : f.snap[j].k \notin f.disc}
+StayWith(f, u) == {j \in StayIdx(f) : TagOf(f.snap[j].k) = u}
+OthersWith(f, u) == Cardinality({j \in 1..Len(f.snap) : TagOf(f.snap[j].k) = u /\ j \notin StayIdx(f)}) + Cardinality({k \in f.added : TagOf(k) = u})
+TagsSeen(f) == {TagOf(f.snap[j].k) : j \in 1..Len(f.snap)} \cup {f.called[j] : j \in 1..Len(f.called)}
+NthPos(seq, x, r) ==   \* position of the r-th occurrence of x in seq (0 if there are fewer)
+  LET occ == {j \in 1..Len(seq) : seq[j] = x}
+  IN IF Cardinality(occ) < r THEN 0 ELSE CHOOSE j \in occ : Cardinality({i \in occ : i <= j}) = r
+Rank(f, j) == Cardinality({i \in StayWith(f, TagOf(f.snap[j].k)) : i <= j})
+Unamb(f) == {j \in StayIdx(f) : OthersWith(f, TagOf(f.snap[j].k)) = 0}   \* stayers whose calls are attributable without doubt
+CallPos(f, j) == NthPos(f.called, TagOf(f.snap[j].k), Rank(f, j))
+FirstBrokenT(f, ret) ==
+  IF \E u \in TagsSeen(f) : CountIn(f.called, u) < Cardinality(StayWith(f, u)) THEN "each_connected_handler_exactly_once"
+  ELSE IF \E u \in TagsSeen(f) : CountIn(f.called, u) > Cardinality(StayWith(f, u)) + OthersWith(f, u)
+       THEN (IF \E u \in TagsSeen(f) : CountIn(f.called, u) > 0 /\ Cardinality(StayWith(f, u)) + OthersWith(f, u) = 0
+             THEN "disconnected_handler_never_called" ELSE "each_connected_handler_exactly_once")
+  ELSE IF \E j1, j2 \in Unamb(f) : j1 < j2 /\ ~(CallPos(f, j1) < CallPos(f, j2)) THEN "connection_order"
+  ELSE IF ret # AnyTrue(f.rets) THEN "returns_any_true"
+  ELSE "-"
+ExpectedArgs(e, emitid) == (IF e.w = 0 THEN <<>> ELSE <<1000 + e.w>>) \o <<TagOf(e.k)>> \o <<2000 + emitid>>
+\* first connection of (h, w, user argument u) in a handler list, as disconnect-by-arguments finds it; 0 if none
+FirstWith(seq, h, w, u) ==
+  LET m == SelectSeq(seq, LAMBDA e : e.h = h /\ e.w = w /\ TagOf(e.k) = u) IN IF m = <<>> THEN 0 ELSE m[1].k
 
 \* result: [conn, alive, stack, why]
 R(c, a, s, w) == [conn |-> c, alive |-> a, stack |-> s, why |-> w]
@@ -36,13 +65,13 @@ Judge(e) ==
          IF e.n \notin N
          THEN R(conn, alive, stack, IF e.exc = "NameError" THEN "-" ELSE "unregistered_name_rejected")
          ELSE IF e.exc # "" THEN R(conn, alive, stack, "connect_registered_name_accepted")
-         ELSE R([conn EXCEPT ![<<e.s, e.n>>] = Append(@, Entry(e.k, e.h, e.w))], alive, NoteAdd(stack, e.k), "-")
-    [] e.t = "disconnect" ->    \* by arguments (h, w, user tag k); nothing happens unless such a handler is connected
+         ELSE R([conn EXCEPT ![<<e.s, e.n>>] = Append(@, Entry(e.k, e.h, e.w))], alive, NoteAdd(stack, e.k), "-")   \* tag' below
+    [] e.t = "disconnect" ->    \* by arguments (h, w, user argument e.k): removes ONE connection, the first such; nothing if there is none
          IF e.n \notin N THEN R(conn, alive, stack, IF e.exc = "" THEN "-" ELSE "disconnect_unconnected_does_nothing") ELSE
          LET p == <<e.s, e.n>>
-             hit == \E j \in 1..Len(conn[p]) : conn[p][j] = Entry(e.k, e.h, e.w)
+             hit == FirstWith(conn[p], e.h, e.w, e.k)
          IN IF e.exc # "" THEN R(conn, alive, stack, "disconnect_unconnected_does_nothing")
-            ELSE IF hit THEN R([conn EXCEPT ![p] = RemoveKey(@, e.k)], alive, NoteDisc(stack, {e.k}), "-")
+            ELSE IF hit # 0 THEN R([conn EXCEPT ![p] = RemoveKey(@, hit)], alive, NoteDisc(stack, {hit}), "-")
             ELSE R(conn, alive, stack, "-")
     [] e.t = "disconnect_by_key" ->
          IF e.n \notin N THEN R(conn, alive, stack, IF e.exc = "" THEN "-" ELSE "disconnect_unconnected_does_nothing") ELSE
@@ -70,7 +99,7 @@ Judge(e) ==
          IF stack = <<>> THEN R(conn, alive, stack, "emit_end_without_begin") ELSE
          LET f == stack[Len(stack)]
          IN R(conn, alive, SubSeq(stack, 1, Len(stack) - 1),
-              IF e.exc # "" THEN "emit_raised" ELSE IF e.id # f.i THEN "emit_nesting" ELSE FirstBroken(f, e.ret))
+              IF e.exc # "" THEN "emit_raised" ELSE IF e.id # f.i THEN "emit_nesting" ELSE FirstBrokenT(f, e.ret))
     [] e.t = "drop" ->
          R(conn, alive, stack, IF ~e.senders_dead THEN "machinery_keeps_sender_alive"
                                ELSE IF ~e.weak_dead THEN "machinery_keeps_weak_arg_alive" ELSE "-")
@@ -83,6 +112,8 @@ Step == /\ ok
         /\ LET r == Judge(Traces[tid].ev[l + 1])
            IN /\ conn' = r.conn /\ alive' = r.alive /\ stack' = r.stack
               /\ why' = r.why /\ ok' = (r.why = "-")
+              /\ tag' = LET e == Traces[tid].ev[l + 1]
+                         IN IF e.t = "connect" /\ e.exc = "" /\ e.n \in N THEN Append(tag, e.u) ELSE tag
 Spec == Init /\ [][Step]_vars
 Report == ok \/ PrintT(<<"REJECT", tid, l, why>>)
 =============================================================================
